@@ -347,10 +347,15 @@ double cmi_random_nor_not_hot(int64_t i_cand_x)
     double sign = ((i_cand_x >> 63) ? -1.0 : 1.0);
     i_cand_x &= INT64_MAX;
 
-    /* Alias sample to find out which overhang area */
+    /*
+     * Alias sample to find out which overhang area. The keep-or-alias decision
+     * needs its own random number: deciding it by the x candidate (as before)
+     * makes the position inside the area depend on which area was chosen, and
+     * skews the distribution (too few samples near zero).
+     */
     int64_t i_cand_y = zig_sample63();
     uint8_t jdx = i_cand_y & 0xff;
-    jdx = (i_cand_x >= nor_zig_i_prob[jdx]) ? nor_zig_alias[jdx] : jdx;
+    jdx = (zig_sample63() >= nor_zig_i_prob[jdx]) ? nor_zig_alias[jdx] : jdx;
     if (jdx > nor_zig_inflection) {
         /* Convex overhang */
         for (;;) {
